@@ -23,6 +23,76 @@ ASSUMPTIONS = ["kill(2) returns 0 exactly when the signal was sent"]
 KILL_SINKS = ("getAndTryToKillPids", "Fs::writeKillAt", "Fs::writeFreezeAt", "reapCgroupRecursively")
 
 
+def kmsg_path_ignores_silencing(ctx):
+    """Shared by C17 (kill record always reaches kmsg) and C20 (silencing never suppresses the kmsg kill record)."""
+    P = ctx.prog
+    # ---- kmsgLog independent of LogStream silencing: the kmsg descriptor is written on a call path that never passes a test of the
+    # per-thread silencing flag (LogStream obeys it; Ruleset switches it off around the actions of a silenced ruleset)
+    kl = ctx.fn1("Oomd::Log::kmsgLog")
+    cg_ = ctx.cg
+    SINKS_ = ("writeFull", "write", "dprintf", "writev", "pwrite")
+
+    # classes that are handed the kmsg descriptor at construction carry it in a field
+    carriers = set()
+    for f_ in P.fns.values():
+        for i_, n_ in enumerate(f_.nodes):
+            if n_["k"] == "construct" and any("kmsg_fd_" in f_.text(a_) for a_ in n_.get("args", [])):
+                carriers.add(re.sub(r"^(const |class |struct )+", "", n_.get("type", "")).strip())
+
+    def kmsg_sinks(f):
+        out_ = []
+        for i in f.calls():
+            if f.nodes[i].get("cname") not in SINKS_ or not f.nodes[i].get("args"):
+                continue
+            a0 = f.text(f.nodes[i]["args"][0])
+            if "kmsg_fd_" in a0 or (a0.startswith("this->") and any(f.cls.endswith(c.split("::")[-1]) for c in carriers if c)):
+                out_.append(i)
+        return out_
+
+    def silencing_guard(f, node):
+        fl_ = Flow(P, f, cg=cg_)
+        n_ = node[1:] if isinstance(node, tuple) else node
+        try:
+            g_ = fl_.guards(n_) if not isinstance(n_, tuple) else set()
+        except Exception:
+            g_ = set()
+        return sorted(k for k, p in g_ if "enabled()" in k or "skip_" in k)
+    clean_sites, dirty_sites = [], []
+    seen_, work = {}, [(kl.usr, [])]
+    while work:
+        u, dirt = work.pop()
+        if u in seen_ and (not seen_[u] or dirt):
+            continue
+        seen_[u] = dirt
+        f = P.fns[u]
+        for i in kmsg_sinks(f):
+            d2 = dirt + silencing_guard(f, i)
+            (dirty_sites if d2 else clean_sites).append((f, i, d2))
+        if len(seen_) > 400:
+            break
+        for e in cg_.out.get(u, ()):
+            if e.dst not in P.fns:
+                continue
+            src_is_stream = f.cls.endswith("LogStream") or (f.kind == "lambda" and "LogStream" in f.pq)
+            d2 = dirt + silencing_guard(f, e.node) + (["inside " + f.pq] if src_is_stream else [])
+            work.append((e.dst, d2))
+    ctx.counters["kmsg_writes"] = len(clean_sites) + len(dirty_sites)
+    ctx.floor("kmsg_writes", 1, "writes to the kmsg descriptor reachable from Log::kmsgLog")
+    for f, i, d2 in clean_sites:
+        ctx.use(f)
+        g = Flow(P, f, cg=cg_).guards(i)
+        other = [k for k, p in g if "kmsg_fd_" not in k]
+        ctx.check(not other if f is kl else True, "kmsg-write-unconditional", "guarded_by", f.loc(i), "the kmsg write depends only on the kmsg fd being open",
+                  "the kmsg write is conditioned on " + str(other))
+    ctx.check(bool(clean_sites), "kmsg-ignores-silencing", "call-path guards", dirty_sites[0][0].loc(dirty_sites[0][1]) if dirty_sites else kl.loc(),
+              "the kmsg descriptor is written on a path from kmsgLog that never tests the silencing flag",
+              "every write to the kmsg descriptor reachable from kmsgLog passes a test of the per-thread silencing flag (%s): with "
+              "\"silence-logs\": \"plugins\" the 'oomd kill' record is dropped although the kill happened" % (dirty_sites[0][2][:2] if dirty_sites else "no write found"))
+    ctx.check(not kl.calls("LogStream::enabled"), "kmsg-ignores-silencing:direct", "who-may-call", kl.loc(),
+              "kmsgLog does not consult LogStream::enabled()", "kmsgLog consults the per-thread silencing flag")
+
+
+
 def run(ctx):
     # locals / parameters the rules below refer to by name (a rename makes the analysis 'broken', never a violation)
     ctx.anchor(ctx.fn1('Oomd::BaseKillPlugin::tryToKillCgroup'), 'nrKilled', 'cgroupPath', 'killUuid', 'target')
@@ -247,71 +317,7 @@ def run(ctx):
         ctx.check(Xc(tkc.nodes[i]["args"][1]) == "param:killUuid", "uuid-xattr-is-attempt-uuid", "provenance", tkc.loc(i),
                   "uuid xattr receives the attempt's id", "uuid xattr receives " + Xc(tkc.nodes[i]["args"][1]))
 
-    # ---- kmsgLog independent of LogStream silencing: the kmsg descriptor is written on a call path that never passes a test of the
-    # per-thread silencing flag (LogStream obeys it; Ruleset switches it off around the actions of a silenced ruleset)
-    kl = ctx.fn1("Oomd::Log::kmsgLog")
-    cg_ = ctx.cg
-    SINKS_ = ("writeFull", "write", "dprintf", "writev", "pwrite")
-
-    # classes that are handed the kmsg descriptor at construction carry it in a field
-    carriers = set()
-    for f_ in P.fns.values():
-        for i_, n_ in enumerate(f_.nodes):
-            if n_["k"] == "construct" and any("kmsg_fd_" in f_.text(a_) for a_ in n_.get("args", [])):
-                carriers.add(re.sub(r"^(const |class |struct )+", "", n_.get("type", "")).strip())
-
-    def kmsg_sinks(f):
-        out_ = []
-        for i in f.calls():
-            if f.nodes[i].get("cname") not in SINKS_ or not f.nodes[i].get("args"):
-                continue
-            a0 = f.text(f.nodes[i]["args"][0])
-            if "kmsg_fd_" in a0 or (a0.startswith("this->") and any(f.cls.endswith(c.split("::")[-1]) for c in carriers if c)):
-                out_.append(i)
-        return out_
-
-    def silencing_guard(f, node):
-        fl_ = Flow(P, f, cg=cg_)
-        n_ = node[1:] if isinstance(node, tuple) else node
-        try:
-            g_ = fl_.guards(n_) if not isinstance(n_, tuple) else set()
-        except Exception:
-            g_ = set()
-        return sorted(k for k, p in g_ if "enabled()" in k or "skip_" in k)
-    clean_sites, dirty_sites = [], []
-    seen_, work = {}, [(kl.usr, [])]
-    while work:
-        u, dirt = work.pop()
-        if u in seen_ and (not seen_[u] or dirt):
-            continue
-        seen_[u] = dirt
-        f = P.fns[u]
-        for i in kmsg_sinks(f):
-            d2 = dirt + silencing_guard(f, i)
-            (dirty_sites if d2 else clean_sites).append((f, i, d2))
-        if len(seen_) > 400:
-            break
-        for e in cg_.out.get(u, ()):
-            if e.dst not in P.fns:
-                continue
-            src_is_stream = f.cls.endswith("LogStream") or (f.kind == "lambda" and "LogStream" in f.pq)
-            d2 = dirt + silencing_guard(f, e.node) + (["inside " + f.pq] if src_is_stream else [])
-            work.append((e.dst, d2))
-    ctx.counters["kmsg_writes"] = len(clean_sites) + len(dirty_sites)
-    ctx.floor("kmsg_writes", 1, "writes to the kmsg descriptor reachable from Log::kmsgLog")
-    for f, i, d2 in clean_sites:
-        ctx.use(f)
-        g = Flow(P, f, cg=cg_).guards(i)
-        other = [k for k, p in g if "kmsg_fd_" not in k]
-        ctx.check(not other if f is kl else True, "kmsg-write-unconditional", "guarded_by", f.loc(i), "the kmsg write depends only on the kmsg fd being open",
-                  "the kmsg write is conditioned on " + str(other))
-    ctx.check(bool(clean_sites), "kmsg-ignores-silencing", "call-path guards", dirty_sites[0][0].loc(dirty_sites[0][1]) if dirty_sites else kl.loc(),
-              "the kmsg descriptor is written on a path from kmsgLog that never tests the silencing flag",
-              "every write to the kmsg descriptor reachable from kmsgLog passes a test of the per-thread silencing flag (%s): with "
-              "\"silence-logs\": \"plugins\" the 'oomd kill' record is dropped although the kill happened" % (dirty_sites[0][2][:2] if dirty_sites else "no write found"))
-    ctx.check(not kl.calls("LogStream::enabled"), "kmsg-ignores-silencing:direct", "who-may-call", kl.loc(),
-              "kmsgLog does not consult LogStream::enabled()", "kmsgLog consults the per-thread silencing flag")
-
+    kmsg_path_ignores_silencing(ctx)
     kmsg_record_complete(ctx, "C17")
     # ---- PluginRet mapping
     krun = ctx.fn1("Oomd::BaseKillPlugin::run")
